@@ -22,12 +22,17 @@ ASSUMPTIONS = [
     "itself the spelling without a trailing separator is accepted as well",
     "the entry must be one that existed at some time during the session (the harness's byte-level record of names)",
 ]
-MINIMUMS = {"quick": {"paths_judged": 3000, "paths_with_special_bytes": 500, "dual_watch_cases": 10, "linked_probes_judged": 20, "linked_link_renames": 8}, "thorough": {"paths_judged": 200000}}
+MINIMUMS = {"quick": {"paths_judged": 3000, "paths_with_special_bytes": 500, "dual_watch_cases": 10, "linked_probes_judged": 20, "linked_link_renames": 8, "paths_judged_under_ascii_filesystem_encoding": 500}, "thorough": {"paths_judged": 200000}}
 WALL_CAP = {"quick": 170, "thorough": 3000}
 
 NAMES = ["a", "é", "☃", os.fsdecode(b"\xff\xfe.txt"), os.fsdecode(b"\xfd")]
 # names that mean something to globbing, regexes, shells and line-oriented code; a name of 200 bytes
 NAMES_ODD = ["a", "*[b]?", "n\nl", " ", "x" * 200, "é"]
+# names that are string prefixes of each other (a rename of the shorter must not touch the book-keeping of the longer)
+NAMES_PREFIX = ["a", "ab", "é", "é☃", os.fsdecode(b"\xfd"), os.fsdecode(b"\xfd\xff")]
+# a worker with these variables has the filesystem encoding "ascii": every non-ASCII byte of a name - also of a name that is valid
+# UTF-8 - must come back surrogate-escaped, so that os.fsencode(event path) names the entry
+ASCII_ENV = {"LC_ALL": "C", "LANG": "C", "PYTHONUTF8": "0", "PYTHONCOERCECLOCALE": "0"}
 BIAS = {"rename_dir": 6, "move_in": 4, "mkdir": 3, "makedirs": 2, "create": 3, "write": 2, "chmod": 1, "unlink": 1.5, "rename_file": 3,
         "rmdir": 1, "rmtree": 1, "move_out": 1.5, "rename_replace": 1}
 
@@ -42,6 +47,12 @@ def path_oracle(h, sess, seg_ops, evs, single):
             if not p:
                 continue
             h.c("paths_judged")
+            try:
+                os.fsencode(p)
+            except UnicodeEncodeError:
+                h.v("C19", "path-not-convertible-with-the-filesystem-encoding", f"{type(e).__name__}.{which} = {p!r} cannot be converted back with the filesystem "
+                    f"encoding ({__import__('sys').getfilesystemencoding()}): it does not name the entry")
+                continue
             special = any(b > 127 for b in os.fsencode(p))
             if special:
                 h.c("paths_with_special_bytes")
@@ -64,7 +75,7 @@ def make_cfg(r, seed, observer):
     cfg = {
         "seed": seed, "n_ops": r.randint(8, 22), "recursive": r.random() < 0.85, "full": observer == "inotify" and r.random() < 0.25,
         "bytes": False, "spelling": r.choice(["abs", "rel", "slash", "path", "relpath", "dot", "dotdot"]), "mode": r.choice(["plain", "plain", "small"]) if observer == "inotify" else "plain",
-        "delay": 0.1, "probe_p": 0.0, "final_probes": False, "n_root": r.randint(2, 6), "n_out": r.randint(2, 4), "names": NAMES if r.random() < 0.7 else NAMES_ODD, "bias": BIAS,
+        "delay": 0.1, "probe_p": 0.0, "final_probes": False, "n_root": r.randint(2, 6), "n_out": r.randint(2, 4), "names": r.choice([NAMES, NAMES, NAMES, NAMES_PREFIX, NAMES_ODD]), "bias": BIAS,
         "observer": observer,
     }
     cfg["read_size"] = 300 if cfg["mode"] == "small" else None
@@ -301,11 +312,15 @@ def plan(tier, seed, jobs):
             specs.append({"kind": "dual", "n": 12, "seed": seed, "j": j, "budget_s": 50})
         for j in range(2):
             specs.append({"kind": "linked", "n": 14, "seed": seed, "j": j, "budget_s": 50})
+        specs.append({"kind": "random", "n": 60, "seed": seed, "j": 200, "budget_s": 50, "observer": "inotify", "env": ASCII_ENV, "ascii": True})
+        specs.append({"kind": "random", "n": 40, "seed": seed, "j": 201, "budget_s": 50, "observer": "polling", "env": ASCII_ENV, "ascii": True})
     else:
         for j in range(jobs):
             specs.append({"kind": "dual", "n": 300, "seed": seed, "j": j, "budget_s": 700})
         for j in range(jobs):
             specs.append({"kind": "linked", "n": 250, "seed": seed, "j": j, "budget_s": 700})
+        for j in range(4):
+            specs.append({"kind": "random", "n": 2000, "seed": seed, "j": 200 + j, "budget_s": 700, "observer": "inotify" if j < 3 else "polling", "env": ASCII_ENV, "ascii": True})
         for j in range(jobs * 3):
             specs.append({"kind": "random", "n": 4000, "seed": seed, "j": j, "budget_s": 700, "observer": "inotify"})
         for j in range(jobs):
@@ -317,13 +332,24 @@ def run_batch(spec):
     b = Batch(spec)
     if spec["kind"] == "random":
         r = rng_for(spec["seed"], "C19", spec["j"])
+        if spec.get("ascii"):
+            import sys
+
+            if sys.getfilesystemencoding().lower() in ("utf-8", "utf8"):
+                b.inconc("C19: the worker meant to run with a non-UTF-8 filesystem encoding runs with " + sys.getfilesystemencoding())
+                return b.to_dict()
         for n in range(spec["n"]):
             if b.expired():
                 break
             cfg = make_cfg(r, spec["seed"] * 1000003 + spec["j"] * 10007 + n, spec["observer"])
+            if spec.get("ascii"):
+                # the same byte names, spelled the way this interpreter's filesystem encoding spells them
+                cfg["names"] = [os.fsdecode(n.encode("utf-8", "surrogateescape")) for n in cfg["names"]]
             h = fshist.History(cfg).run(justify=path_oracle)
             nontriv = h.counts.get("paths_with_special_bytes", 0) >= 1 and not (cfg["spelling"] == "abs" and not cfg["bytes"])
             fshist.account(b, h, "C19", cfg, nontriv)
+            if spec.get("ascii"):
+                b.count("paths_judged_under_ascii_filesystem_encoding", h.counts.get("paths_judged", 0))
             b.add("configurations", f"{spec['observer']}:{cfg['spelling']}:{'bytes' if cfg['bytes'] else 'str'}:{'full' if cfg['full'] else 'normal'}")
     elif spec["kind"] == "dual":
         r = rng_for(spec["seed"], "C19d", spec["j"])
